@@ -81,21 +81,31 @@ func checkKeyLayout(r *Run, p *Prog) {
 	r.Ob("C15.R1.layout", "Key.LocalKey masks exactly the low s bits", p.Position(local.Pos()), ok3 && mask == (int64(1)<<uint(shl))-1, fmt.Sprintf("mask=%#x, 2^s-1=%#x", mask, (int64(1)<<uint(shl))-1))
 	// counter limit
 	limit := int64(-1)
-	inspectNoLit(add.Body, func(n ast.Node) bool {
-		if be, ok := n.(*ast.BinaryExpr); ok && be.Op == token.GTR {
-			ast.Inspect(be.Y, func(y ast.Node) bool {
-				if e, ok := y.(ast.Expr); ok {
-					if tv, ok := add.Pkg.TypesInfo.Types[e]; ok && tv.Value != nil && tv.Value.Kind() == constant.Int {
-						if v, ok := constant.Int64Val(tv.Value); ok && v > limit {
-							limit = v
+	// the comparison may sit in add itself or in a package-local predicate it calls
+	limitFns := []*FuncNode{add}
+	for _, call := range CallsIn(add, func(o types.Object, _ *ast.CallExpr) bool {
+		f, ok := o.(*types.Func)
+		return ok && p.ByObj[f.Origin()] != nil && p.ByObj[f.Origin()].Pkg == add.Pkg
+	}) {
+		limitFns = append(limitFns, p.ByObj[CalleeFunc(add, call)])
+	}
+	for _, lf := range limitFns {
+		inspectNoLit(lf.Body, func(n ast.Node) bool {
+			if be, ok := n.(*ast.BinaryExpr); ok && be.Op == token.GTR {
+				ast.Inspect(be.Y, func(y ast.Node) bool {
+					if e, ok := y.(ast.Expr); ok {
+						if tv, ok := lf.Pkg.TypesInfo.Types[e]; ok && tv.Value != nil && tv.Value.Kind() == constant.Int {
+							if v, ok := constant.Int64Val(tv.Value); ok && v > limit {
+								limit = v
+							}
 						}
 					}
-				}
-				return true
-			})
-		}
-		return true
-	})
+					return true
+				})
+			}
+			return true
+		})
+	}
 	r.Ob("C15.R1.layout", "the per-node counter stops at 2^s-1", p.Position(add.Pos()), limit == (int64(1)<<uint(shl))-1, fmt.Sprintf("limit=%d, 2^s-1=%d: a local key beyond the mask would spill into the leaseholder bits", limit, (int64(1)<<uint(shl))-1))
 }
 
@@ -160,8 +170,28 @@ func checkKeyProvenance(r *Run, p *Prog) {
 			c := p.CFG(add)
 			cp, _ := c.Locate(cs.Call)
 			gate := c.EdgesEstablishing(func(atom ast.Expr, val bool) bool {
-				be, ok := ast.Unparen(atom).(*ast.BinaryExpr)
-				return ok && be.Op == token.GTR && !val
+				if val {
+					return false
+				}
+				if be, ok := ast.Unparen(atom).(*ast.BinaryExpr); ok && be.Op == token.GTR {
+					return true
+				}
+				// a package-local predicate whose result is a ">" comparison
+				if call, ok := ast.Unparen(atom).(*ast.CallExpr); ok {
+					if h := p.ByObj[CalleeFunc(add, call)]; h != nil && h.Body != nil && h.Pkg == add.Pkg {
+						isGtr := false
+						inspectNoLit(h.Body, func(y ast.Node) bool {
+							if ret, ok := y.(*ast.ReturnStmt); ok && len(ret.Results) == 1 {
+								if be, ok := ast.Unparen(ret.Results[0]).(*ast.BinaryExpr); ok && be.Op == token.GTR {
+									isGtr = true
+								}
+							}
+							return true
+						})
+						return isGtr
+					}
+				}
+				return false
 			})
 			_, vis := c.ReachAvoiding([]Point{c.Entry()}, gate, nil)
 			r.Ob("C15.R2.provenance", "counter.add tests the 20-bit limit before advancing", p.Position(cs.Call.Pos()), len(gate) > 0 && !vis[cp], "")
